@@ -94,6 +94,9 @@ def gen_desc(seed, nsched):
             o = workload.random_options(rng, r, 0.7)
             if o:
                 base["rule"].setdefault(r[0], {}).update(o)
+    lr = []
+    if rng.random() < 0.2:
+        lr = workload.local_rules_documented(rng)
     srng = substream(seed, "schedule")
     schedules = [{"perm_seed": None, "disable": [], "enable": [], "phase": {}, "passes": [{"all": True, "skip": []}, {"all": True, "skip": []}], "report": True}]
     # the phase-gated check twice on the same objects (what apply_rules does around a fix), with the
@@ -107,12 +110,13 @@ def gen_desc(seed, nsched):
         "run_seed": seed,
         "umask": "022",
         "file": "x.vhd",
-        "sandbox": [workload.sb_entry("x.vhd", data)],
+        "sandbox": [workload.sb_entry("x.vhd", data)] + lr,
+        "local_rules": "lr" if lr else None,
         "style": style,
         "base_config": base,
         "schedules": schedules,
         "want_alone": True,
-        "meta": {"from": label, "tags": tags, "size": len(data), "digest": wire.digest(data), "style": style},
+        "meta": {"from": label, "tags": tags, "size": len(data), "digest": wire.digest(data), "style": style, "local_rules": len(lr)},
     }
 
 
@@ -179,11 +183,21 @@ def evaluate(desc, R):
             # the reports (JSON dictionary, syntastic lines) list exactly the per-rule violations:
             # together with the per-rule comparisons below this is "disabling D removes exactly
             # D's violations from the report"
-            want_rep = sorted((u, str(l), str(sol)) for u, vs in p["V"].items() for (l, sol) in vs)
+            # (a local rule written the documented way is called <name>_<nnn> in the text reports and
+            # by its never-updated `unique_id` attribute in the JSON dictionary - a naming difference
+            # between formats, C14's subject: ids that are not built-in rule ids are compared as one label)
+            builtin = {r[0] for r in runner.RULES}
+
+            def nid(u):
+                return u if u in builtin else "<local>"
+
+            want_rep = sorted((nid(u), str(l), str(sol)) for u, vs in p["V"].items() for (l, sol) in vs)
             for key in ("rep_json", "rep_syn"):
                 gotr = p.get(key)
                 if key == "rep_syn":
                     want_rep = sorted((u, l) for (u, l, _s) in want_rep)
+                if gotr is not None:
+                    gotr = [(nid(x[0]),) + tuple(x[1:]) for x in gotr]
                 if gotr is not None and sorted(tuple(x) for x in gotr) != want_rep and ("report", si, pi) not in seen:
                     seen.add(("report", si, pi))
                     g = sorted(tuple(x) for x in gotr)
@@ -482,7 +496,7 @@ def run_breadth(job, env):
         if job.get("want_dep"):
             d["want_dep"] = True
         data = workload.read(p)
-        d["sandbox"] = [workload.sb_entry("x.vhd", data)]
+        d["sandbox"] = [workload.sb_entry("x.vhd", data)] + [f for f in d["sandbox"] if f["path"].startswith("lr/")]
         d["style"] = None if k % 3 else "jcl"
         d["meta"].update({"from": os.path.relpath(p, workload.REPO), "size": len(data), "digest": wire.digest(data), "tags": [], "style": d["style"]})
         d["hashseed_class"] = job.get("class", 0)
@@ -564,7 +578,7 @@ def run_exotic(job, env):
             continue
         d = gen_desc(H(job["seed"], "exotic", uid, opt, val), 0)
         data = workload.read(p)
-        d["sandbox"] = [workload.sb_entry("x.vhd", data)]
+        d["sandbox"] = [workload.sb_entry("x.vhd", data)] + [f for f in d["sandbox"] if f["path"].startswith("lr/")]
         d["style"] = None
         d["base_config"] = {"rule": {uid: {opt: val}}}
         d["meta"].update({"from": os.path.relpath(p, workload.REPO), "size": len(data), "digest": wire.digest(data), "tags": [], "style": None, "focus_options": {opt: val}})
@@ -609,7 +623,7 @@ def run_ownswarm(job, env):
     for p, opt, val in cases[job["i"] :: job["of"]]:
         d = gen_desc(H(job["seed"], "ownswarm", os.path.basename(p), opt, val), 1)
         data = workload.read(p)
-        d["sandbox"] = [workload.sb_entry("x.vhd", data)]
+        d["sandbox"] = [workload.sb_entry("x.vhd", data)] + [f for f in d["sandbox"] if f["path"].startswith("lr/")]
         d["style"] = None
         d["base_config"] = {"rule": {r[0]: {opt: val} for r in runner.RULES if r[1] != 0 and opt in r[6]}}
         d["meta"].update({"from": "corpus/" + os.path.basename(p), "size": len(data), "digest": wire.digest(data), "tags": [], "style": None, "swarm": {opt: val}})
@@ -686,7 +700,7 @@ def run_job(job, env):
             own = sorted(p for p, s in workload.corpus() if p.startswith(os.path.join(workload.HERE, "corpus")))
             p = own[job["i"] % len(own)]
             data = workload.read(p)
-            d["sandbox"] = [workload.sb_entry("x.vhd", data)]
+            d["sandbox"] = [workload.sb_entry("x.vhd", data)] + [f for f in d["sandbox"] if f["path"].startswith("lr/")]
             d["meta"].update({"from": "corpus/" + os.path.basename(p), "size": len(data), "digest": wire.digest(data), "tags": []})
     d["hashseed_class"] = job.get("class", 0)
     V, res = judge(d, env)
